@@ -257,8 +257,13 @@ type span struct{ start, end int }
 // render joins the lexemes; choose picks the separator for gap i (0 = before
 // the first lexeme is not a gap; gaps are numbered 1..len-1). Returns the
 // source and the byte span of every token.
-func render(toks []token, lead, trail string, choose func(gap int, a, b lexeme, depth int) string) (string, []span, int) {
+func render(toks []token, lead, trail string, choose func(gap int, a, b lexeme, depth int) string, spell ...func(l lexeme) string) (string, []span, int) {
 	lx := lexemes(toks)
+	if len(spell) > 0 {
+		for i := range lx {
+			lx[i].text = spell[0](lx[i])
+		}
+	}
 	spans := make([]span, len(toks))
 	for i := range spans {
 		spans[i].start = -1
@@ -317,6 +322,19 @@ func renderRandom(toks []token, r *core.Rand) (string, []span, int) {
 			}
 		}
 		return " "
+	}, func(l lexeme) string {
+		// keywords are not case sensitive: one operator word in eight is
+		// written in another case (AND, Or, NOT, LIKE, NotIn, hasprefix ...)
+		if (l.cls != 'b' && l.cls != 'p') || !isWordy(l.text[0]) || l.text[0] >= '0' && l.text[0] <= '9' || !r.Chance(1, 8) {
+			return l.text
+		}
+		switch r.Intn(3) {
+		case 0:
+			return strings.ToUpper(l.text)
+		case 1:
+			return strings.ToLower(l.text)
+		}
+		return strings.ToUpper(l.text[:1]) + strings.ToLower(l.text[1:])
 	})
 }
 
